@@ -381,6 +381,18 @@ Proof.
     destruct IH as [IH1 IH2]. split; [exact IH1|]. cbn [map]. f_equal; assumption.
 Qed.
 
+(* with the repair every decoder made by a constructor is released fresh after ANY history *)
+Lemma free_dec_fresh_fixed (s0 : dec) (ops : list (dop DT)) :
+  v_resetreader_drops vr = true -> buf_inv s0 -> dec_fresh_equiv (free_dec (fst (dec_run s0 ops))).
+Proof. intros Hv Hi. apply free_dec_fresh_partial. exact (run_buf_inv ops s0 Hv Hi). Qed.
+
+Lemma buf_inv_new_dec : buf_inv new_dec.
+Proof. intros E; discriminate. Qed.
+Lemma buf_inv_new_decoder input : buf_inv (new_decoder DR DC ER dr0 dc0 input).
+Proof. intros E; discriminate. Qed.
+Lemma buf_inv_new_decoder_from_reader input : buf_inv (new_decoder_from_reader DR DC ER dr0 dc0 input).
+Proof. intros _; reflexivity. Qed.
+
 (* the mode switch: Simple(false) always empties both tables; Simple(true) empties the class
    list but (as found) KEEPS the reference list *)
 Lemma dsimple_false_resets (s : dec) :
@@ -665,4 +677,91 @@ Lemma own_example :
   or_val (own_decode (all_fast false) 10 (TStruct [TString; TBytes; TIface; TSlice TString])
             (WObj [WStr; WStr; WList [WStr; WBytes; WChar]; WList [WStr; WRefTo 0]]) [] 0) =
   ONode [OLeaf Owned; OLeaf Owned; ONode [OLeaf Owned; OLeaf Owned; OLeaf Owned]; ONode [OLeaf Owned; OLeaf Owned]].
+Proof. vm_compute. reflexivity. Qed.
+
+(* ------------------------------------------------------------------------------------- *)
+(* the tree as repaired ([all_fixed]): what holds now, without guards                     *)
+(* ------------------------------------------------------------------------------------- *)
+Lemma now_free_enc_fresh :
+  forall (V RT CT ER WR : Type) (rt0 : RT) (ct0 : CT) (ser : bool -> bool -> RT -> CT -> V -> ser_res RT CT ER)
+         (s : enc RT CT ER WR),
+  enc_fresh_equiv V RT CT ER WR rt0 ct0 all_fixed ser (free_enc RT CT ER WR rt0 ct0 all_fixed s).
+Proof. intros. apply free_enc_fresh_fixed; reflexivity. Qed.
+
+Lemma now_free_enc_is_new :
+  forall (RT CT ER WR : Type) (rt0 : RT) (ct0 : CT) (s : enc RT CT ER WR),
+  free_enc RT CT ER WR rt0 ct0 all_fixed s = new_enc RT CT ER WR rt0 ct0.
+Proof. intros. apply free_enc_fixed_is_new; reflexivity. Qed.
+
+Lemma now_esessions_fresh :
+  forall (V RT CT ER WR : Type) (rt0 : RT) (ct0 : CT) (ser : bool -> bool -> RT -> CT -> V -> ser_res RT CT ER)
+         (l : list (esession V WR)) (p : epool RT CT ER WR),
+  Forall (fun e => e = new_enc RT CT ER WR rt0 ct0) p ->
+  Forall (fun e => e = new_enc RT CT ER WR rt0 ct0) (fst (esessions_run V RT CT ER WR rt0 ct0 all_fixed ser p l)) /\
+  snd (esessions_run V RT CT ER WR rt0 ct0 all_fixed ser p l) =
+    map (fun ss => snd (enc_run V RT CT ER WR rt0 ct0 all_fixed ser (new_enc RT CT ER WR rt0 ct0) (es_ops ss))) l.
+Proof. intros. apply all_sessions_fresh_fixed; try reflexivity. assumption. Qed.
+
+(* every decoder a program can hold comes from one of these *)
+Inductive made_by_constructor {DR DC ER : Type} (dr0 : DR) (dc0 : DC) : dec DR DC ER -> Prop :=
+| made_new : made_by_constructor dr0 dc0 (new_dec DR DC ER dr0 dc0)                                   (* the pool *)
+| made_bytes input : made_by_constructor dr0 dc0 (new_decoder DR DC ER dr0 dc0 input)                 (* NewDecoder *)
+| made_reader input : made_by_constructor dr0 dc0 (new_decoder_from_reader DR DC ER dr0 dc0 input).   (* NewDecoderFromReader *)
+
+Lemma now_free_dec_fresh :
+  forall (DT DV DR DC ER : Type) (dr0 : DR) (dc0 : DC)
+         (des : bool -> dopts -> DR -> DC -> option ER -> list byte -> DT -> des_res DV DR DC ER)
+         (s0 : dec DR DC ER) (ops : list (dop DT)),
+  made_by_constructor dr0 dc0 s0 ->
+  dec_fresh_equiv DT DV DR DC ER dr0 dc0 all_fixed des
+    (free_dec DR DC ER dr0 dc0 all_fixed (fst (dec_run DT DV DR DC ER dr0 dc0 all_fixed des s0 ops))).
+Proof.
+  intros. apply free_dec_fresh_fixed; [reflexivity|].
+  destruct H; [apply buf_inv_new_dec|apply buf_inv_new_decoder|apply buf_inv_new_decoder_from_reader].
+Qed.
+
+Lemma now_dsessions_fresh :
+  forall (DT DV DR DC ER : Type) (dr0 : DR) (dc0 : DC)
+         (des : bool -> dopts -> DR -> DC -> option ER -> list byte -> DT -> des_res DV DR DC ER)
+         (l : list (dsession DT)) (p : dpool DR DC ER),
+  Forall (fun e => dec_same e (new_dec DR DC ER dr0 dc0)) p ->
+  Forall (fun e => dec_same e (new_dec DR DC ER dr0 dc0)) (fst (dsessions_run DT DV DR DC ER dr0 dc0 all_fixed des p l)) /\
+  snd (dsessions_run DT DV DR DC ER dr0 dc0 all_fixed des p l) =
+    map (fun ss => snd (dec_run DT DV DR DC ER dr0 dc0 all_fixed des (new_dec DR DC ER dr0 dc0) (dss_ops ss))) l.
+Proof. intros. apply all_dsessions_fresh_fixed; [reflexivity|assumption]. Qed.
+
+Lemma now_mode_switch_resets :
+  forall (DR DC ER : Type) (dr0 : DR) (dc0 : DC) (b : bool) (s : dec DR DC ER),
+  d_refer (dset_simple DR DC ER dr0 dc0 all_fixed b s) = dr0 /\ d_cls (dset_simple DR DC ER dr0 dc0 all_fixed b s) = dc0.
+Proof. intros. apply dsimple_resets_fixed. reflexivity. Qed.
+
+(* the histories that failed before the repairs, run through the repaired model *)
+Notation f_enc_run := (enc_run val crefer ccls cerr N crefer0 ccls0 all_fixed cser).
+Notation f_dec_run := (dec_run unit dval drefs unit cerr [] tt all_fixed cdes).
+
+Lemma now_resetbuffer_delivers_all :
+  snd (f_enc_run (c_new_encoder (Some 1%N))
+         [EEncode (VStr (bs "hello")); EResetBuffer; EEncode (VStr (bs "world!"))]) =
+  [OFlushed None (Some (1%N, bs "s5""hello""")); OUnit; OFlushed None (Some (1%N, bs "s6""world!"""))].
+Proof. vm_compute. reflexivity. Qed.
+
+Lemma now_pool_writer_gone :
+  snd (f_enc_run (cv_free_enc all_fixed (fst (f_enc_run c_new_enc hist_writer)))
+                 [ESimple true; EEncode (VStr (bs "secret-of-next-user")); EBytes]) =
+  [OUnit; OFlushed None None; OBytes (bs "s19""secret-of-next-user""")].
+Proof. vm_compute. reflexivity. Qed.
+
+Lemma now_pool_dec_buffer_clean :
+  snd (f_dec_run (cv_free_dec all_fixed (fst (f_dec_run c_new_dec dhist_buf)))
+                 [DResetReader (bs "s19""secret-of-next-user"""); DDecode tt]) =
+  [ODUnit; ODecoded (DStr (bs "secret-of-next-user")) None false].
+Proof. vm_compute. reflexivity. Qed.
+
+Lemma now_pool_dec_no_hang :
+  snd (f_dec_run (cv_free_dec all_fixed (fst (f_dec_run c_new_dec dhist_hang))) [DResetReader (bs "i7;"); DDecode tt]) =
+  [ODUnit; ODecoded (DInt 7) None false].
+Proof. vm_compute. reflexivity. Qed.
+
+Lemma now_simple_true_is_clean :
+  snd (f_dec_run (fst (f_dec_run (c_new_decoder dinput1) dhist)) dnext) = [ODUnit; ODUnit; ODecoded DPanic None false].
 Proof. vm_compute. reflexivity. Qed.
